@@ -92,7 +92,7 @@ void run_C11(void) {
   if (!strcmp(G.mode, "memcheck")) {
     // small dimensions only: memcheck costs 30-50x; it is the tool that sees inside the assembly kernels
     static const uint64_t Ns[] = {2, 4, 8, 16, 32, 64};
-    catalogue_sweep(Ns, th ? 6 : 4, th ? 12 : 2, 0, MON_CANARY | MON_VALGRIND);
+    catalogue_sweep(Ns, th ? 6 : 4, th ? 24 : 3, 0, MON_CANARY | MON_VALGRIND);
     return;
   }
   if (!strcmp(G.mode, "leaks")) {
@@ -100,6 +100,6 @@ void run_C11(void) {
       for (unsigned rep = 0; rep < (th ? 6u : 2u); rep++) lifecycle_case(ALL_N[ni], rep);
     return;
   }
-  catalogue_sweep(ALL_N, N_ALL_N, th ? 60 : 8, th ? 8 : 2, MON_CANARY);
+  catalogue_sweep(ALL_N, N_ALL_N, th ? 400 : 20, th ? 40 : 4, MON_CANARY);
   for (size_t ni = 0; ni < N_ALL_N; ni++) lifecycle_case(ALL_N[ni], 0);
 }
